@@ -143,7 +143,7 @@ var decoys = []string{decoyMgmt, decoyPlugin, decoyExcl, decoyParent, decoyProfi
 func init() {
 	// self-test of the name tables: a stem inside another word would make "occurs in" ambiguous
 	words := append(append([]string{}, unrelatedImports...), decoys...)
-	words = append(words, "org.", "com.", "io.", "net.", ".core", ".boot", ".ext", "-kit", "Client", "core.Engine", "api.v1.Service", "util.Helper.run", "com.example.app", "shaded.")
+	words = append(words, "org.", "com.", "io.", "net.", ".core", ".boot", ".ext", "-kit", ".x2", "second", "Client", "core.Engine", "api.v1.Service", "util.Helper.run", "com.example.app", "shaded.")
 	for i, s := range stems {
 		for j, o := range stems {
 			if i != j && strings.Contains(o, s) {
@@ -160,15 +160,16 @@ func init() {
 
 // namer hands out group ids and artifact ids; all its choices come from the drawn specs
 type namer struct {
-	off  int
-	used int
-	art  int
+	off   int
+	used  int
+	art   int
+	reuse *Dep // when set: the coordinates the first dependency of the next manifest re-declares
 }
 
 var (
 	groupPrefixes = []string{"org.", "com.", "io.", "net.", ""}
-	groupSuffixes = []string{"", ".core", ".boot", ".ext", "-kit"}
-	artifactKinds = []string{"core", "api", "starter-web", "test", "bom", "client"}
+	groupSuffixes = []string{"", ".core", ".boot", ".ext", "-kit", ".x2"}
+	artifactKinds = []string{"core", "api", "starter-web", "test", "bom", "client", "core.api", "lib_2.12"}
 	pomVersions   = []string{"1.2.3", "4.12", "2.0.0.RELEASE", "0.9-SNAPSHOT", "[1.0,2.0)", "${lib.version}", "${project.version}"}
 	pomScopes     = []string{"test", "compile", "provided", "runtime", "system", "import"}
 )
@@ -211,6 +212,11 @@ type depSpec struct {
 	PadStyle      int
 	CommentBefore bool
 	CommentedOut  bool
+	// added by the widening round (zero value = the plain variant)
+	SameArtifactAs int // k > 0: the artifact id of the (k-1)th earlier dependency when that one has another group id
+	EmptyScope     int // 1 <scope/>, 2 <scope></scope> (only when Scope == 0)
+	CommentInside  int // k > 0: a comment before the (k-1)th child of the <dependency>
+	EmptyExcl      bool // <exclusions/> (only when Exclusions == 0)
 }
 
 var depSpecGen = rapid.Custom(func(t *rapid.T) depSpec {
@@ -245,6 +251,18 @@ var depSpecGen = rapid.Custom(func(t *rapid.T) depSpec {
 	}
 	d.CommentBefore = rapid.IntRange(0, 4).Draw(t, "commentBefore") == 4
 	d.CommentedOut = rapid.IntRange(0, 9).Draw(t, "commentedOut") == 9
+	if rapid.IntRange(0, 6).Draw(t, "sameArtifact") == 6 {
+		d.SameArtifactAs = rapid.IntRange(1, 4).Draw(t, "sameArtifactAs")
+	}
+	if d.Scope == 0 && rapid.IntRange(0, 4).Draw(t, "emptyScope") == 4 {
+		d.EmptyScope = rapid.IntRange(1, 2).Draw(t, "emptyScopeForm")
+	}
+	if rapid.IntRange(0, 5).Draw(t, "commentInside") == 5 {
+		d.CommentInside = rapid.IntRange(1, 8).Draw(t, "commentInsideAt")
+	}
+	if d.Exclusions == 0 {
+		d.EmptyExcl = rapid.IntRange(0, 9).Draw(t, "emptyExclusions") == 9
+	}
 	return d
 })
 
@@ -466,6 +484,17 @@ func renderPom(p pomSpec, n *namer) pomOut {
 				group = n.group(ds.Prefix, ds.Suffix)
 			}
 			dep := Dep{Group: group, Artifact: n.artifact(group, ds.ArtKind)}
+			if ds.SameArtifactAs > 0 && d > 0 {
+				if o := out.Deps[(ds.SameArtifactAs-1)%d]; o.Group != group {
+					dep.Artifact = o.Artifact
+					feats["artifact_id_shared_by_two_groups"] = true
+				}
+			}
+			if d == 0 && n.reuse != nil {
+				dep = Dep{Group: n.reuse.Group, Artifact: n.reuse.Artifact}
+				n.reuse = nil
+				feats["dependency_declared_in_both_manifests"] = true
+			}
 			if ds.CommentBefore {
 				w.comment(2, "about "+dep.Artifact)
 				feats["comment_between_dependencies"] = true
@@ -499,9 +528,16 @@ func renderPom(p pomSpec, n *namer) pomOut {
 			if ds.Classifier {
 				children = append(children, child{name: "classifier", text: "tests"})
 			}
+			if ds.Scope == 0 && ds.EmptyScope > 0 {
+				children = append(children, child{name: "scope", text: []string{"\x00self-closing", ""}[(ds.EmptyScope-1)%2]})
+				feats["empty_scope_element"] = true
+			}
 			if ds.Exclusions > 0 {
 				children = append(children, child{name: "exclusions"})
 				feats["exclusions"] = true
+			} else if ds.EmptyExcl {
+				children = append(children, child{name: "exclusions", text: "\x00self-closing"})
+				feats["empty_exclusions_element"] = true
 			}
 			if len(ds.Order) > 0 {
 				for i := range children {
@@ -514,6 +550,14 @@ func renderPom(p pomSpec, n *namer) pomOut {
 			}
 			w.open(2, "dependency")
 			for ci, c := range children {
+				if ds.CommentInside > 0 && (ds.CommentInside-1)%len(children) == ci {
+					w.comment(3, "<"+c.name+">"+decoyScript+"</"+c.name+">")
+					feats["comment_inside_dependency"] = true
+				}
+				if c.text == "\x00self-closing" {
+					w.line(3, "<"+c.name+"/>")
+					continue
+				}
 				if c.name != "exclusions" {
 					style := 0
 					if ds.PadStyle > 0 && ds.PadChild%len(children) == ci {
@@ -571,12 +615,14 @@ type PomCase struct {
 	Pom      string   `json:"pom"`
 	Expect   []Dep    `json:"expect"`
 	Features []string `json:"features"`
+	Again    bool     `json:"again,omitempty"` // analyse the same file a second time: same result
 }
 
 func genPomCase(t *rapid.T) PomCase {
 	n := drawNamer(t)
 	p := renderPom(drawPomSpec(t, 10), n)
-	return PomCase{Pom: p.Text, Expect: p.Deps, Features: p.Features}
+	again := rapid.IntRange(0, 3).Draw(t, "analyseTwice") == 3
+	return PomCase{Pom: p.Text, Expect: p.Deps, Features: p.Features, Again: again}
 }
 
 func checkPom(c PomCase) pbt.Verdict {
@@ -590,7 +636,22 @@ func checkPom(c PomCase) pbt.Verdict {
 	if msg := matchSeq(fromCoca(got), c.Expect); msg != "" {
 		return pbt.Fail("AnalysisMaven: %s\n got  %s\n want %s\n%s", msg, depList(fromCoca(got)), depList(c.Expect), c.Pom)
 	}
+	if c.Again {
+		var second []core_domain.CodeDependency
+		if p := call(func() { second = deps.AnalysisMaven(filepath.Join(dir, "pom.xml")) }); p != "" {
+			return pbt.Fail("AnalysisMaven panicked when the same pom.xml was analysed again: %s\n%s", p, c.Pom)
+		}
+		if msg := matchSeq(fromCoca(second), c.Expect); msg != "" {
+			return pbt.Fail("AnalysisMaven, second analysis of the same file: %s\n got  %s\n want %s\n%s", msg, depList(fromCoca(second)), depList(c.Expect), c.Pom)
+		}
+		if msg := matchSeq(fromCoca(got), c.Expect); msg != "" {
+			return pbt.Fail("AnalysisMaven: the first result changed when the file was analysed again: %s\n now  %s\n want %s\n%s", msg, depList(fromCoca(got)), depList(c.Expect), c.Pom)
+		}
+	}
 	v := pbt.Verdict{}
+	if c.Again {
+		v.Classes = append(v.Classes, "analysed_twice")
+	}
 	decoySection := false
 	for _, f := range c.Features {
 		v.Classes = append(v.Classes, f)
@@ -626,7 +687,9 @@ type gradleOut struct {
 }
 
 var gradleConfs = []string{"implementation", "api", "compileOnly", "runtimeOnly", "testImplementation", "testRuntimeOnly",
-	"annotationProcessor", "developmentOnly", "compile", "testCompile"}
+	"annotationProcessor", "developmentOnly", "compile", "testCompile",
+	// any identifier may name a configuration (plugin-defined and user-defined ones)
+	"kapt", "integrationTestImplementation", "testFixturesApi", "provided", "compileClasspath", "checkstyle"}
 
 // blocks that surround the dependencies block; every one of them was seen to be accepted by the shipped parser
 var gradleBlocks = []string{
@@ -645,11 +708,17 @@ var gradleBlocks = []string{
 	"// build file of the sample\n",
 	"def libVersion = '5.0'\n",
 	"/*\n * Licensed under the Apache License, Version 2.0\n */\n",
+	// blocks whose names resemble "dependencies" or which hold entries that look like dependencies
+	"dependencyManagement {\n    imports {\n        mavenBom 'org.decoy.mgmt:mgmt-bom:1.0'\n    }\n}\n",
+	"dependencyManagement {\n    dependencies {\n        dependency 'org.decoy.mgmt:mgmt-bom-two:1.0'\n    }\n}\n",
+	"dependencyLocking {\n    lockAllConfigurations()\n}\n",
+	"subprojects {\n    apply plugin: 'java'\n    dependencies {\n        testImplementation 'org.decoy.profile:profile-only:1.0'\n    }\n}\n",
+	"configurations.all {\n    exclude group: 'org.decoy.excl', module: 'excluded-2'\n}\n",
 }
 
 const blockCommentIndex = 14 // index of the block comment in gradleBlocks
 
-var gradleVersions = []string{"1.2.3", "4.12", "2.0.0.RELEASE", "0.9-SNAPSHOT", "[1.0,2.0)"}
+var gradleVersions = []string{"1.2.3", "4.12", "2.0.0.RELEASE", "0.9-SNAPSHOT", "[1.0,2.0)", "1.+", "latest.release"}
 
 // notations of one entry of the dependencies block
 const (
@@ -666,17 +735,21 @@ const (
 	nMap
 	nInterpolated
 	nPlatform
+	nCatalog
+	nTrailingClosure
 	notationCount
 )
 
 var notationNames = []string{"single_quoted", "double_quoted", "parenthesised_single", "parenthesised_double", "parenthesised_single",
 	"parenthesised_with_exclude_closure", "parenthesised_with_closure", "project_reference", "file_tree",
-	"project_reference_in_parentheses_or_gradleApi", "map_notation(open)", "interpolated_version(open)", "platform(open)"}
+	"project_reference_in_parentheses_or_gradleApi", "map_notation(open)", "interpolated_version(open)", "platform(open)",
+	"version_catalog_or_testFixtures_reference", "string_with_trailing_closure_argument"}
 
 // feature switch per notation (known_findings.json can exclude a notation from the search)
 var notationFeature = map[int]string{nDouble: "gradle_double_quoted", nParenDouble: "gradle_double_quoted",
 	nProject: "gradle_non_string_notation", nFileTree: "gradle_non_string_notation", nOtherRef: "gradle_non_string_notation",
-	nMap: "gradle_non_string_notation", nInterpolated: "gradle_non_string_notation", nPlatform: "gradle_non_string_notation"}
+	nMap: "gradle_non_string_notation", nInterpolated: "gradle_non_string_notation", nPlatform: "gradle_non_string_notation",
+	nCatalog: "gradle_non_string_notation"}
 
 type entrySpec struct {
 	Conf            int
@@ -691,6 +764,9 @@ type entrySpec struct {
 	CommentBefore   bool
 	TrailingComment bool
 	BlankAfter      bool
+	// added by the widening round (zero value = the plain variant)
+	SameArtifactAs int // k > 0: the artifact id of the (k-1)th earlier entry when that one has another group id
+	Semi           int // 1 = the entry ends in ';', 2 = '; ' and the next entry follows on the same line
 }
 
 var entrySpecGen = rapid.Custom(func(t *rapid.T) entrySpec {
@@ -698,7 +774,8 @@ var entrySpecGen = rapid.Custom(func(t *rapid.T) entrySpec {
 	e.Conf = rapid.IntRange(0, len(gradleConfs)-1).Draw(t, "conf")
 	// weights: plain notations are the most frequent
 	e.Notation = rapid.SampledFrom([]int{nSingle, nSingle, nSingle, nSingle, nSingle, nDouble, nDouble, nDouble, nParenSingle, nParenSingle,
-		nParenDouble, nSpaceParen, nExcludeClosure, nPropertyClosure, nProject, nFileTree, nOtherRef, nMap, nInterpolated, nPlatform}).Draw(t, "notation")
+		nParenDouble, nSpaceParen, nExcludeClosure, nPropertyClosure, nProject, nFileTree, nOtherRef, nMap, nInterpolated, nPlatform,
+		nCatalog, nTrailingClosure}).Draw(t, "notation")
 	e.Variant = rapid.IntRange(0, 2).Draw(t, "variant")
 	if rapid.IntRange(0, 5).Draw(t, "sameGroup") == 5 {
 		e.SameGroupAs = rapid.IntRange(1, 4).Draw(t, "sameGroupAs")
@@ -711,6 +788,12 @@ var entrySpecGen = rapid.Custom(func(t *rapid.T) entrySpec {
 	e.CommentBefore = rapid.IntRange(0, 5).Draw(t, "lineCommentBefore") == 5
 	e.TrailingComment = rapid.IntRange(0, 6).Draw(t, "trailingComment") == 6
 	e.BlankAfter = rapid.IntRange(0, 4).Draw(t, "blankAfter") == 4
+	if rapid.IntRange(0, 6).Draw(t, "sameArtifact") == 6 {
+		e.SameArtifactAs = rapid.IntRange(1, 4).Draw(t, "sameArtifactAs")
+	}
+	if rapid.IntRange(0, 7).Draw(t, "semicolon") == 7 {
+		e.Semi = rapid.IntRange(1, 2).Draw(t, "semicolonForm")
+	}
 	return e
 })
 
@@ -720,6 +803,9 @@ type gradleSpec struct {
 	Blank   []bool // blank line next to the block
 	CRLF    bool
 	Entries []entrySpec
+	// added by the widening round (zero value = the plain variant)
+	Header  int  // 1 "dependencies{", 2 the whole block on one line (only with at most one plain entry)
+	NoBlock bool // the script has no dependencies block at all (the entries are not written)
 }
 
 func drawGradleSpec(t *rapid.T, maxEntries int) gradleSpec {
@@ -729,6 +815,10 @@ func drawGradleSpec(t *rapid.T, maxEntries int) gradleSpec {
 	g.Blank = rapid.SliceOfN(rapid.Bool(), len(gradleBlocks), len(gradleBlocks)).Draw(t, "blankLines")
 	g.CRLF = rapid.IntRange(0, 9).Draw(t, "crlf") == 9
 	g.Entries = rapid.SliceOfN(entrySpecGen, 0, maxEntries).Draw(t, "entries")
+	if rapid.IntRange(0, 5).Draw(t, "header") == 5 {
+		g.Header = rapid.IntRange(1, 2).Draw(t, "headerForm")
+	}
+	g.NoBlock = rapid.IntRange(0, 11).Draw(t, "noDependenciesBlock") == 11
 	// generator features tied to recorded (unrepaired) findings are left out
 	if pbt.Excluded("gradle_block_comment_top_level") {
 		g.Place[blockCommentIndex] = 0
@@ -773,8 +863,26 @@ func renderGradle(g gradleSpec, n *namer) gradleOut {
 		}
 	}
 
-	b.WriteString("dependencies {\n")
-	for _, e := range g.Entries {
+	entries := g.Entries
+	if g.NoBlock {
+		entries = nil
+		feats["no_dependencies_block"] = true
+	}
+	oneLine := false
+	switch {
+	case g.NoBlock:
+	case g.Header == 1:
+		b.WriteString("dependencies{\n")
+		feats["header_without_space"] = true
+	case g.Header == 2 && len(entries) <= 1 && (len(entries) == 0 || entries[0].Notation <= nSpaceParen):
+		b.WriteString("dependencies {")
+		oneLine = true
+		feats["block_on_one_line"] = true
+	default:
+		b.WriteString("dependencies {\n")
+	}
+	joined := false // the previous entry ended in "; " on this line
+	for ei, e := range entries {
 		conf := gradleConfs[e.Conf%len(gradleConfs)]
 		var group string
 		if e.SameGroupAs > 0 && len(out.Entries) > 0 {
@@ -784,6 +892,17 @@ func renderGradle(g gradleSpec, n *namer) gradleOut {
 			group = n.group(e.Prefix, e.Suffix)
 		}
 		art := n.artifact(group, e.ArtKind)
+		if e.SameArtifactAs > 0 && len(out.Entries) > 0 {
+			if o := out.Entries[(e.SameArtifactAs-1)%len(out.Entries)]; o.Group != group {
+				art = o.Artifact
+				feats["artifact_id_shared_by_two_groups"] = true
+			}
+		}
+		if n.reuse != nil && (e.Notation <= nPropertyClosure || e.Notation == nTrailingClosure) {
+			group, art = n.reuse.Group, n.reuse.Artifact
+			n.reuse = nil
+			feats["dependency_declared_in_both_manifests"] = true
+		}
 		ver := gradleVersions[e.Version%len(gradleVersions)]
 		coord := group + ":" + art
 		switch e.CoordForm {
@@ -796,7 +915,7 @@ func renderGradle(g gradleSpec, n *namer) gradleOut {
 		case 3:
 			coord += ":" + ver + "@jar"
 		}
-		if e.CommentBefore {
+		if e.CommentBefore && !joined && !oneLine {
 			b.WriteString(ind + "// " + art + "\n")
 			feats["comment_in_block"] = true
 		}
@@ -821,7 +940,20 @@ func renderGradle(g gradleSpec, n *namer) gradleOut {
 			}
 			line = conf + "(" + q + coord + q + ") {\n" + ind + ind + "exclude group: '" + decoyExcl + "', module: 'excluded-0'\n" + ind + ind + "exclude module: 'excluded-1'\n" + ind + "}"
 		case nPropertyClosure:
-			line = conf + "('" + coord + "') { transitive = false }"
+			if v%3 == 2 {
+				line = conf + "('" + coord + "') {\n" + ind + ind + "because 'see " + decoyExcl + ":excluded-0:1.0'\n" + ind + ind + "version {\n" + ind + ind + ind + "strictly '1.0'\n" + ind + ind + "}\n" + ind + "}"
+			} else {
+				line = conf + "('" + coord + "') { transitive = false }"
+			}
+		case nTrailingClosure:
+			if v%2 == 1 {
+				line = conf + " '" + coord + "', {\n" + ind + ind + "exclude group: '" + decoyExcl + "'\n" + ind + "}"
+			} else {
+				line = conf + " '" + coord + "', { transitive = false }"
+			}
+		case nCatalog:
+			must = false
+			line = conf + []string{" libs.guava", "(libs.junit.jupiter)", " testFixtures(project(':core'))"}[v%3]
 		case nProject:
 			must = false
 			line = conf + " " + []string{"project(':core')", "project(\":shared:util\")", "project(path: ':core', configuration: 'testArtifacts')"}[v%3]
@@ -843,24 +975,46 @@ func renderGradle(g gradleSpec, n *namer) gradleOut {
 			line = conf + " \"" + group + ":" + art + ":${libVersion}\""
 		case nPlatform:
 			must, open = false, true
-			line = conf + " platform('" + coord + "')"
+			line = conf + []string{" platform('", " platform('", " enforcedPlatform('"}[v%3] + coord + "')"
 		default:
 			panic("c19: unknown notation")
 		}
 		notes[notationNames[e.Notation]] = true
-		if e.TrailingComment {
-			line += " // keep"
-			feats["comment_in_block"] = true
-		}
-		b.WriteString(ind + line + "\n")
-		if e.BlankAfter {
-			b.WriteString("\n")
+		switch {
+		case oneLine:
+			b.WriteString(" " + line + " ")
+		case e.Semi == 2 && ei+1 < len(entries) && !strings.Contains(line, "\n"):
+			if !joined {
+				b.WriteString(ind)
+			}
+			b.WriteString(line + "; ")
+			joined = true
+			feats["two_entries_on_one_line"] = true
+		default:
+			if e.Semi > 0 {
+				line += ";"
+				feats["entry_ends_in_semicolon"] = true
+			}
+			if e.TrailingComment {
+				line += " // keep"
+				feats["comment_in_block"] = true
+			}
+			if !joined {
+				b.WriteString(ind)
+			}
+			b.WriteString(line + "\n")
+			joined = false
+			if e.BlankAfter {
+				b.WriteString("\n")
+			}
 		}
 		if must || open {
 			out.Entries = append(out.Entries, Dep{Group: group, Artifact: art, Scope: conf, Open: open})
 		}
 	}
-	b.WriteString("}\n")
+	if !g.NoBlock {
+		b.WriteString("}\n")
+	}
 	for i, blk := range gradleBlocks {
 		if place(i) == 2 {
 			if blank(i) {
@@ -873,7 +1027,7 @@ func renderGradle(g gradleSpec, n *namer) gradleOut {
 			}
 		}
 	}
-	if len(g.Entries) == 0 {
+	if len(g.Entries) == 0 && !g.NoBlock {
 		feats["empty_dependencies_block"] = true
 	}
 	out.Text = b.String()
@@ -931,12 +1085,26 @@ type GradleCase struct {
 	Expect    []Dep    `json:"expect"`
 	Notations []string `json:"notations"`
 	Features  []string `json:"features"`
+	// Follow: what is analysed next in the same process, without resetting anything in between:
+	// 1 a script with one other dependency, 2 a script without dependencies block, 3 the same script again.
+	// Each analysis must give the result of its own script and leave earlier results untouched.
+	Follow int `json:"follow,omitempty"`
 }
+
+const (
+	followScript      = "plugins {\n    id 'java'\n}\ndependencies {\n    runtimeOnly 'org.decoy.second:second-art:1.0'\n}\n"
+	followNoBlock     = "plugins {\n    id 'java'\n}\nrepositories {\n    mavenCentral()\n}\n"
+	followScriptGroup = "org.decoy.second"
+)
 
 func genGradleCase(t *rapid.T) GradleCase {
 	n := drawNamer(t)
 	g := renderGradle(drawGradleSpec(t, 8), n)
-	return GradleCase{Text: g.Text, Expect: g.Entries, Notations: g.Notations, Features: g.Features}
+	follow := 0
+	if rapid.IntRange(0, 2).Draw(t, "followUp") == 2 {
+		follow = rapid.IntRange(1, 3).Draw(t, "followUpKind")
+	}
+	return GradleCase{Text: g.Text, Expect: g.Entries, Notations: g.Notations, Features: g.Features, Follow: follow}
 }
 
 func checkGradle(c GradleCase) pbt.Verdict {
@@ -953,7 +1121,29 @@ func checkGradle(c GradleCase) pbt.Verdict {
 	if msg := matchSeq(fromCoca(got), c.Expect); msg != "" {
 		return pbt.Fail("AnalysisGradleString: %s\n got  %s\n want %s\n%s", msg, depList(fromCoca(got)), depList(c.Expect), c.Text)
 	}
+	if c.Follow > 0 {
+		text, want, what := followScript, []Dep{{Group: followScriptGroup, Artifact: "second-art", Scope: "runtimeOnly"}}, "a script with one other dependency"
+		switch c.Follow {
+		case 2:
+			text, want, what = followNoBlock, nil, "a script without dependencies block"
+		case 3:
+			text, want, what = c.Text, c.Expect, "the same script again"
+		}
+		var next []core_domain.CodeDependency
+		if p := call(func() { next = deps.AnalysisGradleString(text) }); p != "" {
+			return pbt.Fail("AnalysisGradleString panicked on %s analysed after the script below: %s\n%s", what, p, c.Text)
+		}
+		if msg := matchSeq(fromCoca(next), want); msg != "" {
+			return pbt.Fail("AnalysisGradleString on %s, analysed after the script below: %s\n got  %s\n want %s\n%s", what, msg, depList(fromCoca(next)), depList(want), c.Text)
+		}
+		if msg := matchSeq(fromCoca(got), c.Expect); msg != "" {
+			return pbt.Fail("AnalysisGradleString: the result of the script below changed when %s was analysed afterwards: %s\n now  %s\n want %s\n%s", what, msg, depList(fromCoca(got)), depList(c.Expect), c.Text)
+		}
+	}
 	v := pbt.Verdict{}
+	if c.Follow > 0 {
+		v.Classes = append(v.Classes, fmt.Sprintf("follow_up=%d", c.Follow))
+	}
 	for _, f := range c.Features {
 		v.Classes = append(v.Classes, f)
 	}
@@ -983,6 +1173,9 @@ type ProjCase struct {
 	Manifests []Manifest        `json:"manifests"`
 	Imports   []Import          `json:"imports"`
 	Features  []string          `json:"features"`
+	// CliForm: how the deps command is given the project directory (cwd is always the project):
+	// 0 "-p .", 1 "--path .", 2 no option (the default), 3 "-p <absolute directory>", 4 "--path=./"
+	CliForm int `json:"cli_form,omitempty"`
 }
 
 type importSpec struct {
@@ -1010,15 +1203,40 @@ func genProject(t *rapid.T) ProjCase {
 	n := drawNamer(t)
 	c := ProjCase{Files: map[string]string{}}
 	feats := map[string]bool{}
-	layout := rapid.IntRange(0, 9).Draw(t, "layout")
+	layout := rapid.IntRange(0, 11).Draw(t, "layout")
+	redeclare := 0 // k > 0: the second manifest starts with the (k-1)th dependency of the first one
+	if rapid.IntRange(0, 2).Draw(t, "redeclareInSecondManifest") == 2 {
+		redeclare = rapid.IntRange(1, 4).Draw(t, "redeclareWhich")
+	}
+	second := func() {
+		if redeclare == 0 || len(c.Manifests) != 1 {
+			return
+		}
+		var firm []Dep
+		for _, d := range c.Manifests[0].Entries {
+			if !d.Open {
+				firm = append(firm, d)
+			}
+		}
+		if len(firm) > 0 {
+			d := firm[(redeclare-1)%len(firm)]
+			n.reuse = &d
+		}
+	}
 	addPom := func(path string, max int) {
 		p := renderPom(drawPomSpec(t, max), n)
+		n.reuse = nil
 		c.Files[path] = p.Text
 		c.Manifests = append(c.Manifests, Manifest{Path: path, Entries: p.Deps})
 		feats["pom"] = true
 	}
-	addGradle := func(path string, max int) {
-		g := renderGradle(drawGradleSpec(t, max), n)
+	addGradle := func(path string, max int, noBlock bool) {
+		spec := drawGradleSpec(t, max)
+		if noBlock {
+			spec.NoBlock = true
+		}
+		g := renderGradle(spec, n)
+		n.reuse = nil
 		c.Files[path] = g.Text
 		c.Manifests = append(c.Manifests, Manifest{Path: path, Entries: g.Entries})
 		feats["gradle"] = true
@@ -1030,15 +1248,29 @@ func genProject(t *rapid.T) ProjCase {
 	case layout <= 4:
 		addPom("pom.xml", 8)
 	case layout <= 7:
-		addGradle("build.gradle", 7)
+		addGradle("build.gradle", 7, false)
 	case layout == 8:
 		addPom("pom.xml", 4)
+		second()
 		addPom("module-b/pom.xml", 4)
 		feats["two_manifests"] = true
-	default:
+	case layout == 9:
 		addPom("pom.xml", 4)
-		addGradle("tooling/build.gradle", 4)
+		second()
+		addGradle("tooling/build.gradle", 4, false)
 		feats["two_manifests"] = true
+	case layout == 10:
+		addGradle("build.gradle", 4, false)
+		second()
+		addGradle("module-b/build.gradle", 4, false)
+		feats["two_manifests"] = true
+		feats["two_gradle_scripts"] = true
+	default:
+		// the usual multi-project build: the root script declares nothing, the module's script does
+		addGradle("build.gradle", 4, true)
+		addGradle("module-b/build.gradle", 5, false)
+		feats["two_manifests"] = true
+		feats["two_gradle_scripts"] = true
 	}
 
 	uses := rapid.SliceOfN(rapid.Custom(func(t *rapid.T) groupUse {
@@ -1053,7 +1285,7 @@ func genProject(t *rapid.T) ProjCase {
 		f.Pkg = rapid.IntRange(0, 2).Draw(t, "javaPkg")
 		f.Test = rapid.IntRange(0, 3).Draw(t, "testFile") == 3
 		f.InModule = rapid.Bool().Draw(t, "inModule")
-		f.Kind = rapid.IntRange(0, 3).Draw(t, "javaKind")
+		f.Kind = rapid.IntRange(0, 5).Draw(t, "javaKind")
 		f.Unrelated = rapid.SliceOfN(rapid.IntRange(0, len(unrelatedImports)-1), 0, 2).Draw(t, "unrelatedImports")
 		if rapid.IntRange(0, 5).Draw(t, "decoyImport") == 5 {
 			f.Decoy = rapid.IntRange(1, len(decoys)).Draw(t, "decoy")
@@ -1104,7 +1336,15 @@ func genProject(t *rapid.T) ProjCase {
 		if len(c.Manifests) == 2 && fs.InModule {
 			root = filepath.ToSlash(filepath.Dir(c.Manifests[1].Path)) + "/" + root
 		}
-		kind := []string{"class", "class", "class", "interface"}[fs.Kind%4]
+		kind := []string{"class", "class", "class", "interface", "two_types", "class"}[fs.Kind%6]
+		if fs.Kind%6 == 5 && !fs.Test {
+			// a source directory that does not follow the Maven layout
+			root = strings.TrimSuffix(root, "src/main/java/") + "legacy/src/"
+			feats["java_file_outside_src_main_java"] = true
+		}
+		if kind == "two_types" {
+			feats["java_file_with_two_top_level_types"] = true
+		}
 		files = append(files, jf{path: root + strings.ReplaceAll(pkg, ".", "/") + "/" + name + ".java", pkg: pkg, name: name, kind: kind})
 	}
 	addImport := func(fi int, text, group string, static, wildcard bool) {
@@ -1171,10 +1411,21 @@ func genProject(t *rapid.T) ProjCase {
 		}
 		if f.kind == "interface" {
 			b.WriteString("public interface " + f.name + " {\n    void run();\n}\n")
+		} else if f.kind == "two_types" {
+			b.WriteString("interface " + f.name + "Port {\n    void run();\n}\n\npublic class " + f.name + " implements " + f.name + "Port {\n    public void run() {\n    }\n}\n")
 		} else {
 			b.WriteString("public class " + f.name + " {\n    private int count;\n\n    public int getCount() {\n        return count;\n    }\n}\n")
 		}
 		c.Files[f.path] = b.String()
+	}
+	if rapid.IntRange(0, 5).Draw(t, "gitignore") == 5 {
+		// an ignore file naming single files; the ignored file sorts before every manifest and source directory
+		c.Files[".gitignore"] = "*.iml\n.idea/\n"
+		c.Files["app.iml"] = "<module type=\"JAVA_MODULE\" version=\"4\"/>\n"
+		feats["gitignore_matching_a_file"] = true
+	}
+	if rapid.IntRange(0, 1).Draw(t, "cliOptionDrawn") == 1 {
+		c.CliForm = rapid.IntRange(0, 4).Draw(t, "cliForm")
 	}
 	for f := range feats {
 		c.Features = append(c.Features, f)
@@ -1185,15 +1436,15 @@ func genProject(t *rapid.T) ProjCase {
 
 // expectedUnused applies the statement: declared entries whose group id occurs in no import.
 // It also re-checks the generator's promise that "occurs in" is unambiguous.
-func expectedUnused(c ProjCase) (perManifest [][]Dep, owner map[string]int, used, unused int, pattern string) {
-	owner = map[string]int{}
+func expectedUnused(c ProjCase) (perManifest [][]Dep, used, unused int, pattern string) {
 	var groups []string
-	for mi, m := range c.Manifests {
+	for _, m := range c.Manifests {
+		declared := map[string]bool{}
 		for _, d := range m.Entries {
-			if _, dup := owner[d.Artifact]; dup {
-				panic("c19 generator bug: artifact " + d.Artifact + " declared twice")
+			if declared[d.Group+":"+d.Artifact] {
+				panic("c19 generator bug: " + d.Group + ":" + d.Artifact + " declared twice in " + m.Path)
 			}
-			owner[d.Artifact] = mi
+			declared[d.Group+":"+d.Artifact] = true
 			groups = append(groups, d.Group)
 		}
 	}
@@ -1232,22 +1483,78 @@ func expectedUnused(c ProjCase) (perManifest [][]Dep, owner map[string]int, used
 	return
 }
 
+// judgeUnused: the report must be the expected sub-list of each manifest, in the order of that manifest;
+// how the lists of two manifests are put together is left open (any interleaving), and an entry declared
+// identically in both manifests is expected once per declaration.
 func judgeUnused(c ProjCase, got []Dep, what string) string {
-	want, owner, _, _, _ := expectedUnused(c)
-	split := make([][]Dep, len(c.Manifests))
-	for i, g := range got {
-		mi, ok := owner[g.Artifact]
-		if !ok {
-			return fmt.Sprintf("%s: entry #%d %s is not a dependency declared in any manifest of the project", what, i, g)
-		}
-		split[mi] = append(split[mi], g)
+	want, _, _, _ := expectedUnused(c)
+	switch len(want) {
+	case 0:
+		want = [][]Dep{nil, nil}
+	case 1:
+		want = append(want, nil)
+	case 2:
+	default:
+		panic("c19: more than two manifests")
 	}
-	for mi := range c.Manifests {
-		if msg := matchSeq(split[mi], want[mi]); msg != "" {
-			return fmt.Sprintf("%s, manifest %s: %s\n reported %s\n expected (declared, group in no import) %s", what, c.Manifests[mi].Path, msg, depList(split[mi]), depList(want[mi]))
+	a, b := want[0], want[1]
+	// reach[i][j] = set of gi such that got[:gi] is an interleaving of a[:i] and b[:j] (open entries may be left out)
+	type state struct{ gi, i, j int }
+	seen := map[state]bool{}
+	best := 0
+	var walk func(s state) bool
+	walk = func(s state) bool {
+		if seen[s] {
+			return false
 		}
+		seen[s] = true
+		if s.gi > best {
+			best = s.gi
+		}
+		if s.gi == len(got) {
+			rest := true
+			for _, d := range a[s.i:] {
+				rest = rest && d.Open
+			}
+			for _, d := range b[s.j:] {
+				rest = rest && d.Open
+			}
+			if rest {
+				return true
+			}
+		}
+		if s.i < len(a) {
+			if s.gi < len(got) && same(a[s.i], got[s.gi]) && walk(state{s.gi + 1, s.i + 1, s.j}) {
+				return true
+			}
+			if a[s.i].Open && walk(state{s.gi, s.i + 1, s.j}) {
+				return true
+			}
+		}
+		if s.j < len(b) {
+			if s.gi < len(got) && same(b[s.j], got[s.gi]) && walk(state{s.gi + 1, s.i, s.j + 1}) {
+				return true
+			}
+			if b[s.j].Open && walk(state{s.gi, s.i, s.j + 1}) {
+				return true
+			}
+		}
+		return false
 	}
-	return ""
+	if walk(state{}) {
+		return ""
+	}
+	var msg string
+	if best < len(got) {
+		msg = fmt.Sprintf("entry #%d %s does not belong there", best, got[best])
+	} else {
+		msg = "entries are missing"
+	}
+	var exp []string
+	for mi, m := range c.Manifests {
+		exp = append(exp, fmt.Sprintf("%s: %s", m.Path, depList(want[mi])))
+	}
+	return fmt.Sprintf("%s: %s\n reported %s\n expected per manifest (declared, group in no import; each list in its order) %s", what, msg, depList(got), strings.Join(exp, "; "))
 }
 
 func renderProject(c ProjCase) string {
@@ -1267,7 +1574,7 @@ func renderProject(c ProjCase) string {
 }
 
 func projVerdict(c ProjCase) pbt.Verdict {
-	_, _, used, unused, pattern := expectedUnused(c)
+	_, used, unused, pattern := expectedUnused(c)
 	v := pbt.Verdict{}
 	for _, f := range c.Features {
 		v.Classes = append(v.Classes, f)
@@ -1327,7 +1634,7 @@ func checkUnused(c ProjCase) pbt.Verdict {
 	dir := cli.Scratch("c19proj")
 	defer os.RemoveAll(dir)
 	cli.WriteTree(dir, c.Files)
-	var got []core_domain.CodeDependency
+	var got, again, viaVar []core_domain.CodeDependency
 	if p := call(func() {
 		// the pipeline of analysis/dep/app/dep_analysis.go
 		files := cocafile.GetFilesWithFilter(dir, cocafile.JavaFileFilter)
@@ -1335,11 +1642,24 @@ func checkUnused(c ProjCase) pbt.Verdict {
 		iNodes := identifierApp.AnalysisFiles(files)
 		callApp := javaapp.NewJavaFullApp()
 		classNodes := callApp.AnalysisFiles(iNodes, files)
-		got = deps.NewDepApp().AnalysisPath(dir, classNodes)
+		app := deps.NewDepApp()
+		got = app.AnalysisPath(dir, classNodes)
+		// the same report asked for again (same app, same model), and through the instance exported for plug-ins
+		again = app.AnalysisPath(dir, classNodes)
+		viaVar = deps.DepApp.AnalysisPath(dir, classNodes)
 	}); p != "" {
 		return pbt.Fail("unused-dependency analysis panicked: %s\n%s", p, renderProject(c))
 	}
 	if msg := judgeUnused(c, fromCoca(got), "DepAnalysisApp.AnalysisPath"); msg != "" {
+		return pbt.Fail("%s\n%s", msg, renderProject(c))
+	}
+	if msg := judgeUnused(c, fromCoca(again), "DepAnalysisApp.AnalysisPath, second call on the same model"); msg != "" {
+		return pbt.Fail("%s\n%s", msg, renderProject(c))
+	}
+	if msg := judgeUnused(c, fromCoca(viaVar), "deps.DepApp.AnalysisPath, third call on the same model"); msg != "" {
+		return pbt.Fail("%s\n%s", msg, renderProject(c))
+	}
+	if msg := judgeUnused(c, fromCoca(got), "DepAnalysisApp.AnalysisPath, first result re-read after two more calls"); msg != "" {
 		return pbt.Fail("%s\n%s", msg, renderProject(c))
 	}
 	return projVerdict(c)
@@ -1400,7 +1720,8 @@ func checkCLI(c ProjCase) pbt.Verdict {
 	dir := cli.Scratch("c19cli")
 	defer os.RemoveAll(dir)
 	cli.WriteTree(dir, c.Files)
-	res, err := cli.Run("coca_dep", dir, nil, "deps", "-p", ".")
+	args := [][]string{{"deps", "-p", "."}, {"deps", "--path", "."}, {"deps"}, {"deps", "-p", dir}, {"deps", "--path=./"}}[c.CliForm%5]
+	res, err := cli.Run("coca_dep", dir, nil, args...)
 	if err != nil {
 		panic("c19: cannot run coca_dep: " + err.Error())
 	}
@@ -1417,7 +1738,9 @@ func checkCLI(c ProjCase) pbt.Verdict {
 	if msg := judgeUnused(c, got, "table of the deps command"); msg != "" {
 		return pbt.Fail("%s\n%s", msg, renderProject(c))
 	}
-	return projVerdict(c)
+	v := projVerdict(c)
+	v.Classes = append(v.Classes, fmt.Sprintf("cli_form=%d", c.CliForm%5))
+	return v
 }
 
 func tail(s string, n int) string {
